@@ -371,6 +371,10 @@ func (pp *proportionPlugin) OnSessionOpen(ssn *framework.Session) {
 			klog.Errorf("queue %v not found", queue.Name)
 			return false
 		}
+		if queue.Queue.Status.State != scheduling.QueueStateOpen {
+			klog.V(3).Infof("Queue <%s> current state: %s, is not in open state, can not allocate tasks.", queue.Name, queue.Queue.Status.State)
+			return false
+		}
 
 		futureUsed := attr.allocated.Clone().Add(candidate.Resreq)
 		allocatable, _ := futureUsed.LessEqualWithDimensionAndResourcesName(attr.deserved, candidate.Resreq)
